@@ -15,3 +15,6 @@ def check(ctx):
     sharing.analyze(ctx, {"C08.e", "C02.f"})
     from . import casts
     casts.analyze(ctx, {"C17.a"})   # a class id must not wrap: the id on a transition selects the predicate
+    # the property is observed on scanners obtained through build(): the cache must hand back the configuration's own compilation
+    from .common import cache_foundation
+    cache_foundation(ctx)
